@@ -140,6 +140,12 @@ func c12Enc(t *vk.T, k, part int) {
 				t.Violation("DecWithRandomness|reencryption-differs|"+pc.class, "re-encryption with the recovered randomness differs for m=%s", pc.m.String())
 			}
 		}
+		// decryption is a read-only operation on its argument: the ciphertext object is still Enc(m; nonce) afterwards
+		if bigCt(ct).Cmp(want) != 0 {
+			t.Violation("Dec|argument-modified|"+pc.class, "after Dec / DecWithRandomness the caller's ciphertext object no longer holds the ciphertext (m=%s)", pc.m.String())
+		} else if again, e := K.sk.Dec(ct); e != nil || again.Big().Cmp(pc.m) != 0 {
+			t.Violation("Dec|not-repeatable|"+pc.class, "a second Dec of the same ciphertext object gives %v (%v) for m=%s", again, e, pc.m.String())
+		}
 		// random-nonce Enc decrypts too
 		c2, _ := pk.Enc(intOf(pc.m))
 		if g2, e := K.ref.Dec(bigCt(c2)); e != nil || g2.Cmp(pc.m) != 0 {
@@ -196,6 +202,9 @@ func c12Homo(t *vk.T, k, part int) {
 		t.Distinct("add|%s+%s|%s", a.class, b.class, cls)
 		if bigCt(got).Cmp(wantCt) != 0 {
 			t.Violation("Add|ciphertext-differs", "Add differs from the reference for %s + %s", a.class, b.class)
+		}
+		if bigCt(cb).Cmp(rb) != 0 || bigCt(ca).Cmp(ra) != 0 {
+			t.Violation("Add|argument-modified", "Add on a clone changed its second operand or the original of the clone (%s + %s)", a.class, b.class)
 		}
 		if K.ref.InRange(sum) {
 			d, err := K.sk.Dec(got)
